@@ -39,9 +39,15 @@ def main():
         rc, out = sh(["git", "-C", "/repo", "worktree", "add", "--detach", target, "HEAD"])
         if rc:
             print(out); return 2
+    import shutil, tempfile as _tf
+    keep = _tf.mkdtemp(prefix="evidence-keep-")          # evidence written while a patch is applied is not evidence
+    shutil.copytree(os.path.join(HERE, "evidence"), os.path.join(keep, "evidence"))
     try:
         return run(args, tier, target)
     finally:
+        shutil.rmtree(os.path.join(HERE, "evidence"), ignore_errors=True)
+        shutil.copytree(os.path.join(keep, "evidence"), os.path.join(HERE, "evidence"))
+        shutil.rmtree(keep, ignore_errors=True)
         if not in_repo:
             sh(["git", "-C", "/repo", "worktree", "remove", "--force", target])
             import shutil; shutil.rmtree(os.path.dirname(target), ignore_errors=True)
